@@ -81,6 +81,11 @@ FAULTS = {
     "malformed-json-in-bracket-directory": dict(content='{"a": ', name="run[3]/data.json", mkdir="run[3]"),
     "lookup-key-missing-with-brackets": dict(content='{"data": [{"a": 1}]}', lookup="items", name="data[3].json"),
     "missing-file-decoy-matches-as-class": dict(content=None, name="export[1].json", decoy="export1.json"),
+    # readable inputs whose *command line* cannot be encoded as UTF-8 (a file name / preamble with an undecodable byte reaches argv as
+    # a lone surrogate and from there the header): the run may succeed or fail, but a failing one must leave the target alone
+    "undecodable-byte-in-file-name": dict(content=json.dumps(GOOD), name="in\udcff.json", may_succeed=True),
+    "undecodable-byte-in-preamble": dict(argv=["--preamble=# caf\udce9"], may_succeed=True),
+    "undecodable-byte-in-directory-name": dict(content=json.dumps(GOOD), name="d\udcfe/in.json", mkdir="d\udcfe", may_succeed=True),
 }
 
 
@@ -184,6 +189,12 @@ def judge_failure(case, argv, r, trace, after, st, label):
     def W(mech, msg):
         wit.append({"property": PROP, "mechanism": mech, "msg": f"[{label}] argv {argv}: {msg}"[:700]})
 
+    if r.returncode == 0 and FAULTS.get(case["kind"], {}).get("may_succeed"):
+        # not a fault for the pipeline itself: a run that reports success must have produced its text
+        text = after if case["out"] else r.stdout
+        if text is None or not CODE_RE.search(text) or (case["out"] and text == SENTINEL):
+            W(f"successful-run-without-output:{case['kind']}", f"exit status 0 but the output holds no model code: {None if text is None else text[:80]!r}")
+        return wit
     if r.returncode == 0:
         W(f"faulty-run-exits-zero:{case['kind']}", f"exit status 0; stdout {r.stdout[:150]!r}")
     if b"generated by json2python-models" in r.stdout or CODE_RE.search(r.stdout):
